@@ -2,15 +2,15 @@ SPECIFICATION Spec
 CONSTANTS
   MaxB = 4
   NPs = {3}
-  MaxPost = 1
+  MaxPost = 0
   Reserve = TRUE
   Titles <- TitleClasses
   Stack = 64
-  WorkList = FALSE
+  WorkList = TRUE
   DestSpellings = {"none"}
-  FollowRefs = FALSE
+  FollowRefs = TRUE
   IdLimits = {1000000}
-  CheckedIds = FALSE
+  CheckedIds = TRUE
   Emit = TRUE
 INVARIANTS RefinesForest RefinesAdjust RefinesFresh RefinesLinks RefinesCarries RefinesToc Verdict NoAbort RefusedOk EmitInv
 PROPERTIES Reserved
